@@ -374,7 +374,51 @@ def rule_redeem_script_pushed(ctx: Ctx, rep: Report) -> None:
     rep.floor(rule, 4)
 
 
+def rule_control_blocks_prove(ctx: Ctx, rep: Report) -> None:
+    """C10.control_blocks_prove: a script-path spend the library builds carries the
+    control block the library built, and its own engine checks it: the merkle
+    path a leaf is handed grows from the leaf upwards (each level's sibling
+    *appended*), and builder and verifier order each pair of hashes the same
+    way (C12.sibling_order, reported here for the acceptance clause)."""
+    from rules import C12
+    tmp = Report("C12", rep.tier)
+    tmp.quiet = True
+    C12.rule_sibling_order(ctx, tmp)
+    for o in tmp.obs:
+        rep.ob("C10.control_blocks_prove", o.instance, o.held, o.site, o.detail)
+    rep.floor("C10.control_blocks_prove", 4)
+
+
+def rule_multi_a_witness_order(ctx: Ctx, rep: Report) -> None:
+    """C10.multi_a_witness_order: multi_a() writes `<k1> CHECKSIG <k2> CHECKSIGADD
+    ...`, so the first key's signature is consumed first and lies on *top*: the
+    witness lists the signatures in the reverse order of the keys, where
+    multi() (CHECKMULTISIG) takes them in key order. In `_multi_input` the
+    order the keys are walked in depends on which of the two the fragment is,
+    and the multi_a arm is the reversed one -- else a 2-of-3 multi_a spend the
+    library satisfies has its signatures under the wrong keys."""
+    rule = "C10.multi_a_witness_order"
+    fi = ctx.func("btclib.descriptors.miniscript._multi_input")
+    flags = {a.targets[0].id for a in own_nodes(fi.node) if isinstance(a, ast.Assign) and isinstance(a.targets[0], ast.Name) and "'multi_a'" in str(norm(a.value)).replace('"', "'")}
+    cands = [a for a in own_nodes(fi.node) if isinstance(a, ast.Assign) and isinstance(a.value, ast.IfExp) and any(isinstance(c, ast.Call) and call_name(c) == "reversed" for c in ast.walk(a.value))]
+    ok = False
+    detail = "no key order that depends on the fragment was found: the keys are walked one way for both multi() and multi_a()"
+    for a in cands:
+        t = a.value.test
+        on_flag = (isinstance(t, ast.Name) and t.id in flags) or "'multi_a'" in str(norm(t)).replace('"', "'")
+        negated = isinstance(t, ast.UnaryOp) and isinstance(t.op, ast.Not)
+        rev_in_body = any(isinstance(c, ast.Call) and call_name(c) == "reversed" for c in ast.walk(a.value.body))
+        if on_flag or (negated and isinstance(t.operand, ast.Name) and t.operand.id in flags):
+            ok = rev_in_body != negated
+            detail = f"`{norm(a)[:80]}`" + ("" if ok else ": the reversed order is on the multi() arm")
+    rep.ob(rule, "_multi_input:keys", ok, fi.where(cands[0] if cands else None), detail if not ok else f"multi_a walks its keys reversed: {detail}")
+    rep.floor(rule, 1)
+
+
 RULES = [
+    ("C10.control_blocks_prove", rule_control_blocks_prove),
+    ("C10.multi_a_witness_order", rule_multi_a_witness_order),
+
     ("C10.redeem_script_pushed", rule_redeem_script_pushed),
     ("C10.memo_key_complete", rule_memo_key_complete_),
     ("C10.engine_admits", rule_engine_admits),
